@@ -9,6 +9,14 @@ claimed = {
    text="Seeded simulation of SM3 hash-object histories (simulator-chosen Write splits, Sum, Sum-append, Reset, state export, crash-and-restore from the last exported state, fork) and of the SM3 KDF (every len(z) mod 64 x block-count class, prefix clause, kdf.Kdf optimised and marshal paths) against an independent SM3 model, on five dispatch tiers (avx2, avx, sse, scalar asm, purego) with per-run cross-tier trace equality. Sampling, not proof.",
    note="Trusted: the harness SM3 model (checked against GB/T 32905 vectors at every worker start), Go 1.26.8 toolchain, GODEBUG=cpu.* tier selection of the vendored cpu package. Only x86-64 tiers.",
    technique="deterministic simulation: seeded operation/crash histories on a hash object vs reference model, multi-configuration nodes, ddmin replay"),
+ "C03": dict(cat="exploration", design="DESIGN.md section 6 (C03)",
+   text="Seeded simulation of call histories on one mode object over SM4 for ECB, CBC, CFB, OFB, CTR, XTS (IEEE and GB/T 17964, tweak and sector forms), BC, OFBNLF and HCTR, on three code paths (real sm4 block with fused assembly, Block-only wrapper = generic composition, Block+batch wrapper = batched Go paths): the simulator decides the partition of the message into calls, SetIV re-synchronisations, XTS continuation calls followed by a unit with any partial tail, and buffer placement (in place, disjoint, larger dst, guard page directly after/before, unaligned); every call is compared with independent textbook models at the same stream position, canaries/guard pages observe out-of-slice access, a one-call decryption of everything encrypted checks inversion, and six tiers (avx2, avx, sse, noaes, aesni1, purego) are compared per run. Sampling, not proof.",
+   note="Trusted: harness/model/modes over harness/model/sm4m (anchored on SP 800-38A, IEEE 1619, GB/T 17964 vectors at worker start). Writes into dst beyond len(src) are treated as out-of-slice (crypto/cipher.BlockMode contract). Known finding hctr-tweak-split is reported, not repaired. The batch wrapper hands the assembly exactly one batch per call; behaviour of non-amd64 batch implementations is out of reach.",
+   technique="deterministic simulation: seeded call-partition histories on mode objects vs reference models, guard-page fault observation with write-ahead crash attribution, multi-configuration nodes, ddmin replay"),
+ "C11": dict(cat="exploration", design="DESIGN.md section 6 (C11)",
+   text="Seeded simulation of histories on one seekable ZUC cipher object (ZUC-128, ZUC-256, 128-EEA3; default and explicit state-bucket sizes 0..1024; sequential and positioned XOR calls forwards and backwards across rounds, words and buckets; in-place, larger-dst and guard-page buffers) and one MAC object (128-EIA3, ZUC-256 MAC with 32/64/128-bit tags; write splits, Sum, Finish with every bit-length class, Reset, abandon-and-reuse), each call compared with bit-serial models at absolute positions; five tiers compared per run. Sampling, not proof.",
+   note="Trusted: harness/model/zucm (anchored on 3GPP and ZUC-256 vectors at worker start). Known finding zuc256-mac-tail (64/128-bit tags, more than 32 bits after the last 128-bit block) is reported, not repaired, and recognised only by exact equality with a model carrying precisely that deviation.",
+   technique="deterministic simulation: seeded seek/write histories on stream and MAC objects vs bit-serial reference models, multi-configuration nodes, ddmin replay"),
  "C19": dict(cat="exploration", design="DESIGN.md section 6 (C19)",
    text="Seeded simulation of histories on one long-lived MAC object for all eight GB/T 15852.1 constructions over SM4, AES and DES/3DES: several messages in sequence, caller slices with spare capacity, and for CMAC simulator-chosen Write splits, Sum interleavings, reset and abandon-and-reuse; every tag is compared with independent models (truncation and exact length included), the caller's bytes are canary-checked, and full-size tags of messages differing in one bit of the last block must not collide. Three nodes (asm SM4, generic SM4, purego) with cross-node trace equality. Sampling, not proof.",
    note="Trusted: harness/model/macm (anchored on RFC 4493, SP 800-38B TDEA, GB/T 15852.1 appendix vectors at worker start), model SM4, Go's crypto/aes and crypto/des as block ciphers on both sides. LMAC only with key length = block length; CBCR on the empty message only for history independence (unsettled offline). Known finding cbcr-left-shift is reported, not repaired.",
